@@ -52,6 +52,12 @@ impl embedded_hal_async::spi::Error for RegErr {
     }
 }
 
+/// informational cover over all 64 bytes (no loop: eight 64-bit words)
+pub(crate) fn retain64(a: &[u8; 64]) {
+    let w: [u64; 8] = unsafe { core::mem::transmute(*a) };
+    let t = w[0] ^ w[1] ^ w[2] ^ w[3] ^ w[4] ^ w[5] ^ w[6] ^ w[7];
+    kani::cover!(t != 0x6C72_7600_0000_0001, "info: chip contents retained for the replay");
+}
 pub(crate) struct RegSpi;
 impl RegSpi {
     /// fresh chip with arbitrary register contents
@@ -59,6 +65,11 @@ impl RegSpi {
         let f = rf();
         f.init_lo = kani::any();
         f.init_hi = kani::any();
+        // keep every drawn byte in the cone of influence of some property: the replay of a
+        // counterexample is generated from the *sliced* formula (DESIGN 9.14), which drops nondet
+        // values no property depends on and would leave the playback test with too few values
+        retain64(&f.init_lo);
+        retain64(&f.init_hi);
         f.lo = f.init_lo;
         f.hi = f.init_hi;
         f.fifo_n = 0;
